@@ -199,8 +199,8 @@ class C13(Check):
             Variant("closure-not-growing", MOD, CC, "                static_order.append(name)\n                all_parameter_names.add(name)\n", "                static_order.append(name)\n", expect="N2|"),
             Variant("second-pass", MOD, CC, "    static_order = []\n", "    for name in order:\n        to_sort[name].calculate_inpl(name, dependent)\n    static_order = []\n", expect="N1|"),
             Variant("pass-in-declaration-order", MOD, CC, "    for name in order:\n        to_sort[name].calculate_inpl(name, dependent)", "    for name in to_sort:\n        to_sort[name].calculate_inpl(name, dependent)", expect="N1|"),
-            Variant("ic-only-plain", MOD, CC, "initial_conditions: dict[str, float] = {k: cast(float, dependent[k]) for k in self._variables}",
-                    "initial_conditions: dict[str, float] = dict(base_variable_values)", expect="N1|"),
+            Variant("ic-only-plain", MOD, CC, "initial_conditions = {k: cast(float, dependent[k]) for k in self._variables}",
+                    "initial_conditions = dict(base_variable_values)", expect="N1|"),
             Variant("coefficient-any", MOD, CC, "if all((i in all_parameter_names for i in factor.args)):", "if any((i in all_parameter_names for i in factor.args)):", expect="N2|", count=2),
             Variant("derived-variables-not-complement", MOD, "Model.get_derived_variables", "if k not in cache.all_parameter_values", "if k not in cache.base_parameter_values", expect="N4|", quick=True),
             Variant("simulator-empty-y0", SIM, "Simulator.__init__", "model.get_initial_conditions() if y0 is None else y0", "{} if y0 is None else y0", expect="N5|", quick=True),
